@@ -289,7 +289,7 @@ func c02LoopsOver(fn *ssa.Function, S ssa.Value) []*c02SliceLoop {
 		var idx ssa.Value
 		var body, exit Edge
 		if r, i, b, e, ok := l.RangeIndex(); ok {
-			if !SameValue(r, S) {
+			if !c02SameSlice(r, S) {
 				continue
 			}
 			idx, body, exit = i, b, e
@@ -804,7 +804,7 @@ func c02DispatchCalls(fn *ssa.Function, S ssa.Value, depth int) []ssa.CallInstru
 			continue
 		}
 		if CalleeName(call) == nGo {
-			if v := variadicArg(call); v != nil && SameValue(v, S) {
+			if v := variadicArg(call); v != nil && c02SameSlice(v, S) {
 				out = append(out, call)
 			}
 			continue
@@ -814,7 +814,7 @@ func c02DispatchCalls(fn *ssa.Function, S ssa.Value, depth int) []ssa.CallInstru
 			continue
 		}
 		for i, a := range call.Common().Args {
-			if prm := c02ArgParam(g, off, i); prm != nil && c02IsSlice(a) && SameValue(a, S) && c02DispatchesParam(g, i+off, depth+1) {
+			if prm := c02ArgParam(g, off, i); prm != nil && c02IsSlice(a) && c02SameSlice(a, S) && c02DispatchesParam(g, i+off, depth+1) {
 				out = append(out, call)
 				break
 			}
@@ -1014,7 +1014,7 @@ func c02SliceSummary(c *Ctx, g *ssa.Function, Ps []ssa.Value, needDispatch bool,
 // captured variable that holds S when the call is made.
 func c02SliceInCallee(fn *ssa.Function, call ssa.CallInstruction, g *ssa.Function, off int, S ssa.Value) []ssa.Value {
 	for i, a := range call.Common().Args {
-		if prm := c02ArgParam(g, off, i); prm != nil && c02IsSlice(a) && SameValue(a, S) {
+		if prm := c02ArgParam(g, off, i); prm != nil && c02IsSlice(a) && c02SameSlice(a, S) {
 			return []ssa.Value{prm}
 		}
 	}
@@ -1083,13 +1083,36 @@ func c02MapsError(g *ssa.Function, p *ssa.Parameter, tolerated []string) (bool, 
 	aliases := Aliases(p)
 	_, nonNilE, ifs := NilTests(g, aliases)
 	if len(ifs) == 0 {
-		for _, a := range RetAtoms(g, errIdx) {
-			if aliases[a.Val] || aliases[strip(a.Val)] || ErrNilStatus(a.Val, 0) == NonNil || derivesFromAny(a.Val, aliases, 0) {
-				continue
+		// no nil test of the parameter (ignoreX(err): `if errors.Is(err, X) { return nil }; return err`):
+		// every return reachable without taking a tolerated edge yields the parameter, a wrap of it or a non-nil error
+		ct := newCut().Edges(c02ToleratedEdges(g, aliases, tolerated)...)
+		visited := map[*ssa.BasicBlock]bool{}
+		why := ""
+		var walk func(b *ssa.BasicBlock)
+		walk = func(b *ssa.BasicBlock) {
+			if visited[b] || why != "" {
+				return
 			}
-			return false, fmt.Sprintf("%s can return %s for a non-nil argument", FnName(g), describe(a.Val))
+			visited[b] = true
+			for _, in := range b.Instrs {
+				if r, ok := in.(*ssa.Return); ok {
+					for _, v := range Roots(r.Results[errIdx]) {
+						if aliases[v] || aliases[strip(v)] || ErrNilStatus(v, 0) == NonNil || derivesFromAny(v, aliases, 0) {
+							continue
+						}
+						why = fmt.Sprintf("%s can return %s for a non-nil, non-tolerated argument", FnName(g), describe(v))
+					}
+					return
+				}
+			}
+			for _, sc := range b.Succs {
+				if !ct.edges[Edge{b, sc}] {
+					walk(sc)
+				}
+			}
 		}
-		return true, ""
+		walk(g.Blocks[0])
+		return why == "", why
 	}
 	ct := newCut().Edges(c02ToleratedEdges(g, aliases, tolerated)...)
 	for _, ne := range nonNilE {
@@ -1611,11 +1634,13 @@ type c02PermitKey struct {
 	k       int
 	s       int8
 	touched bool
+	work    *ssa.Function // the closure handed to fn as a function argument (run-the-work wrappers)
 }
 
 type c02PermitSummary struct{ exitNil, exitAny int8 }
 
 type c02PermitAnalysis struct {
+	work     *ssa.Function // closure argument of the call being followed (set around a kPass run)
 	c        *Ctx
 	memo     map[c02PermitKey]c02PermitSummary
 	visiting map[c02PermitKey]bool
@@ -1654,9 +1679,21 @@ func c02IsBlockingInstr(in ssa.Instruction) bool {
 func (pa *c02PermitAnalysis) run(fn *ssa.Function, k int, entry c02Permit, depth int) c02PermitSummary {
 	const R4 = "C02.R4.permit-typestate"
 	c := pa.c
-	key := c02PermitKey{fn, k, entry.s, entry.touched}
+	work := pa.work
+	pa.work = nil
+	key := c02PermitKey{fn, k, entry.s, entry.touched, work}
 	if s, ok := pa.memo[key]; ok {
 		return s
+	}
+	workParams := map[ssa.Value]bool{}
+	if work != nil {
+		for _, prm := range fn.Params {
+			if _, isSig := prm.Type().Underlying().(*types.Signature); isSig {
+				for al := range Aliases(prm) {
+					workParams[al] = true
+				}
+			}
+		}
 	}
 	tn := FnName(fn)
 	if pa.visiting[key] || depth > 4 {
@@ -1757,6 +1794,10 @@ func (pa *c02PermitAnalysis) run(fn *ssa.Function, k int, entry c02Permit, depth
 			if n == nGo {
 				return kBlock, nil, 0
 			}
+			// the call of a function parameter for which the caller handed a closure that blocks
+			if work != nil && !call.Common().IsInvoke() && c02RootedIn(call.Common().Value, workParams) && c02ReachesBlocking(work) {
+				return kBlock, nil, 0
+			}
 			if effects[in] {
 				return kEffect, nil, 0
 			}
@@ -1810,7 +1851,13 @@ func (pa *c02PermitAnalysis) run(fn *ssa.Function, k int, entry c02Permit, depth
 		case kStart:
 			*st = c02Permit{s: st.s, last: ins, touched: true}
 		case kPass:
+			for _, a := range ins.(ssa.CallInstruction).Common().Args {
+				if mc, isMC := a.(*ssa.MakeClosure); isMC {
+					pa.work = mc.Fn.(*ssa.Function)
+				}
+			}
 			ps := pa.run(g, gi, c02Permit{s: st.s, touched: st.touched}, depth+1)
+			pa.work = nil
 			passSummary[ins] = ps
 			*st = c02Permit{s: ps.exitAny, last: ins, touched: true}
 			if ErrResultIndex(g.Signature) < 0 {
@@ -1996,6 +2043,9 @@ func c02TaskCalls(f *ssa.Function, chain []ssa.CallInstruction, depth int) []c02
 func c02DispatchBody(fn *ssa.Function, depth int) *ssa.Function {
 	if len(c02DispatchedSlices(fn)) > 0 {
 		return fn
+	}
+	if wb := c02ClosureBody(fn); wb != nil {
+		return wb.Body
 	}
 	if depth == 0 {
 		return nil
@@ -3458,6 +3508,11 @@ func (ca *c02CtxAnalysis) run(f *ssa.Function, ok map[ssa.Value]bool, depth int)
 				}
 				return
 			}
+			for _, a := range cc.Args {
+				if mc, isMC := a.(*ssa.MakeClosure); isMC && mc.Fn.(*ssa.Function).Parent() == f && c02ReachesBlocking(mc.Fn.(*ssa.Function)) {
+					ca.run(mc.Fn.(*ssa.Function), ca.capturedContexts(mc, ok), depth+1)
+				}
+			}
 			g, off := c02CalleeOf(x)
 			if g == nil || g == f || !c02ReachesBlocking(g) {
 				return
@@ -3548,4 +3603,209 @@ func c02DeferredResultWrites(c *Ctx, f *ssa.Function) {
 			ifelse(w.Keeps != "", "the deferred assignment of the enclosing function's error result keeps a failure: "+w.Keeps,
 				"the deferred code overwrites the error result of "+FnName(f)+" after the return value was set: a failure of the function body is replaced by "+describe(w.Store.Val)+", which may be nil (the call reports success, or a waiting task is never released)"))
 	}
+}
+
+// c02DeferredHelperCloseOK: `defer closeOnSuccess(done, &err)`: the deferred
+// in-module function receives the address of f's named error result and
+// closes the channel parameter only on the nil edge of a test of *result.
+func c02DeferredHelperCloseOK(f *ssa.Function, site ssa.CallInstruction) (ok, decided bool) {
+	d, isDefer := site.(*ssa.Defer)
+	if !isDefer {
+		return false, false
+	}
+	g := StaticCallee(d)
+	if g == nil || !inModule(g) || len(g.Blocks) == 0 {
+		return false, false
+	}
+	errIdx := ErrResultIndex(f.Signature)
+	if errIdx < 0 {
+		return false, false
+	}
+	cells := map[ssa.Value]bool{}
+	for _, r := range Returns(f) {
+		if Reachable(d, r) {
+			a := cellOf(r.Results[errIdx])
+			if a == nil {
+				return false, false // a return after the defer does not yield the named result
+			}
+			cells[a] = true
+		}
+	}
+	if len(cells) != 1 {
+		return false, false
+	}
+	var errp *ssa.Parameter
+	for j, a := range d.Call.Args {
+		if cells[a] && j < len(g.Params) {
+			errp = g.Params[j]
+		}
+	}
+	if errp == nil {
+		return false, false
+	}
+	loads := map[ssa.Value]bool{}
+	stores := 0
+	for _, ref := range *errp.Referrers() {
+		switch u := ref.(type) {
+		case *ssa.UnOp:
+			if u.Op == token.MUL {
+				for al := range Aliases(u) {
+					loads[al] = true
+				}
+			}
+		case *ssa.Store:
+			if u.Addr == ssa.Value(errp) {
+				stores++
+			}
+		case *ssa.DebugRef:
+		default:
+			return false, false // the pointer is handed on
+		}
+	}
+	nilE, _, _ := NilTests(g, loads)
+	chans := map[ssa.Value]bool{}
+	for _, prm := range g.Params {
+		if _, isChan := prm.Type().Underlying().(*types.Chan); isChan {
+			for al := range Aliases(prm) {
+				chans[al] = true
+			}
+		}
+	}
+	n := 0
+	ok = true
+	for _, cl := range CallsTo(g, "builtin:close") {
+		if !c02RootedIn(cl.Common().Args[0], chans) {
+			continue
+		}
+		n++
+		if _, dd := cl.(*ssa.Defer); dd || len(nilE) == 0 || !MustPass(cl.(ssa.Instruction), newCut().Edges(nilE...)) {
+			ok = false
+		}
+	}
+	if n == 0 {
+		return false, false
+	}
+	return ok && stores == 0, true
+}
+
+// c02CallsParamOnSuccess: every nil-able return of h lies behind the nil edge
+// of the error of a call of its function parameter k (h = run-the-work wrapper
+// such as outsideRegion(region, work)).
+func c02CallsParamOnSuccess(h *ssa.Function, k int) bool {
+	if k >= len(h.Params) || ErrResultIndex(h.Signature) < 0 {
+		return false
+	}
+	P := Aliases(h.Params[k])
+	ct := newCut()
+	okErr := map[ssa.Value]bool{}
+	n := 0
+	for _, call := range Calls(h, func(string) bool { return true }) {
+		if _, isDefer := call.(*ssa.Defer); isDefer || call.Common().IsInvoke() || !c02RootedIn(call.Common().Value, P) {
+			continue
+		}
+		if e := ErrOf(call); e != nil {
+			ma := c02MustAliases(e)
+			ne, _, _ := NilTests(h, ma)
+			ct.Edges(ne...)
+			for a := range ma {
+				okErr[a] = true
+			}
+			n++
+		}
+	}
+	if n == 0 {
+		return false
+	}
+	for _, a := range c02NilableAtoms(h) {
+		if okErr[a.Val] || okErr[strip(a.Val)] || AtomMustPass(a, ct) {
+			continue
+		}
+		return false
+	}
+	return true
+}
+
+// c02ClosureBody: the closure created in fn that dispatches the successors
+// and is handed to a wrapper that runs it and returns nil only if it did
+// (outsideRegion(region, func() error { Go(...); return await(...) })).
+// Returns the closure and the wrapper call.
+func c02ClosureBody(fn *ssa.Function) *c02WrappedBody {
+	for _, call := range Calls(fn, func(string) bool { return true }) {
+		if _, isDefer := call.(*ssa.Defer); isDefer {
+			continue
+		}
+		h, off := c02CalleeOf(call)
+		if h == nil || h == fn {
+			continue
+		}
+		for i, a := range call.Common().Args {
+			mc, ok := a.(*ssa.MakeClosure)
+			if !ok {
+				continue
+			}
+			w := mc.Fn.(*ssa.Function)
+			if w.Parent() != fn || len(c02DispatchedSlices(w)) == 0 || !c02CallsParamOnSuccess(h, i+off) {
+				continue
+			}
+			return &c02WrappedBody{Body: w, Call: call, Wrapper: h}
+		}
+	}
+	return nil
+}
+
+type c02WrappedBody struct {
+	Body    *ssa.Function
+	Call    ssa.CallInstruction
+	Wrapper *ssa.Function
+}
+
+// c02SameSlice: SameValue, also for two loads of the same captured variable
+// that the closure never writes.
+func c02SameSlice(a, b ssa.Value) bool {
+	if SameValue(a, b) {
+		return true
+	}
+	fvOf := func(v ssa.Value) *ssa.FreeVar {
+		rs := Roots(v)
+		if len(rs) != 1 {
+			return nil
+		}
+		u, ok := rs[0].(*ssa.UnOp)
+		if !ok || u.Op != token.MUL {
+			return nil
+		}
+		fv, _ := u.X.(*ssa.FreeVar)
+		return fv
+	}
+	fa, fb := fvOf(a), fvOf(b)
+	return fa != nil && fa == fb && !freeVarWritten(fa.Parent(), fa)
+}
+
+// capturedContexts: the loads, inside the closure made by mc, of captured
+// context variables whose every stored value derives from the task context.
+func (ca *c02CtxAnalysis) capturedContexts(mc *ssa.MakeClosure, ok map[ssa.Value]bool) map[ssa.Value]bool {
+	g := mc.Fn.(*ssa.Function)
+	okIn := map[ssa.Value]bool{}
+	for j, bnd := range mc.Bindings {
+		a, isAlloc := bnd.(*ssa.Alloc)
+		if !isAlloc || !c02IsContextType(a.Type().(*types.Pointer).Elem()) {
+			continue
+		}
+		all := len(storesTo(a)) > 0
+		for _, st := range storesTo(a) {
+			if ca.derives(st.Val, ok, 0) != 1 {
+				all = false
+			}
+		}
+		if all {
+			for _, ref := range *g.FreeVars[j].Referrers() {
+				if ld, isLd := ref.(*ssa.UnOp); isLd && ld.Op == token.MUL {
+					for al := range Aliases(ld) {
+						okIn[al] = true
+					}
+				}
+			}
+		}
+	}
+	return okIn
 }
